@@ -983,6 +983,7 @@ Lemma test_matches_lab pl nl nn t : ~ In nn (test_names t) -> test_matches pl nl
 Proof.
   destruct t; simpl; intros H; auto.
   - destruct (String.eqb nn n) eqn:E; auto. apply seqb_eq in E. subst. tauto.
+  - destruct (String.eqb nn n) eqn:E; auto. apply seqb_eq in E. subst. tauto.
   - destruct (String.eqb nn n) eqn:E; [apply seqb_eq in E; subst; tauto|]. now rewrite andb_false_r.
 Qed.
 Lemma existsb_ext_in {A} (f g : A -> bool) l : (forall x, In x l -> f x = g x) -> existsb f l = existsb g l.
